@@ -29,8 +29,12 @@ static const profile_t PROFILES[] = {
       (1u << A_BECOME) | (1u << A_UNBECOME) | (1u << A_STASH), (1u << CB_EVT), 0, 0 },
     { "C19", 2, G_REG | G_LIFE | G_SUB | G_QUIT | G_TICK | G_ENV | G_PILL | G_ARM,           RL_BASE | R_PS | R_SY | R_EV,       1, "01000100", 1 | 4, 1, 1,
       (1u << A_DEREG) | (1u << A_STOP) | (1u << A_PAUSE), (1u << CB_START) | (1u << CB_STOP) | (1u << CB_EVT), (1u << P_CTX_STARTED) | (1u << P_CTX_STOPPED) | (1u << P_CTX_TICK) | (1u << P_MOD_STARTED) | (1u << P_MOD_STOPPED), 0 },
-    { "C09", 1, G_SRC | G_SUB | G_LIFE | G_ILLEGAL | G_BADPARAM,                             RL_BASE | R_SR,                     0, "01000100" "07000100", 1, 0, 1,
-      0, 0, (1u << P_T) | (1u << P_U) | (1u << P_RT), 0, 0x7f, 1 },
+    { "C09", 1, G_SRC | G_LIFE | G_ILLEGAL | G_BADPARAM,                                      RL_BASE | R_SR,                     0, "01000100" "07000100", 1, 0, 1,
+      0, 0, 0, 0, 0x7f, 1 | 0x100 },
+    { "C09S", 1, G_SUB | G_LIFE | G_ILLEGAL | G_SUBDUP,                                       RL_BASE | R_SR,                     0, "01000100" "07000100", 1, 0, 1,
+      0, 0, (1u << P_T) | (1u << P_U) | (1u << P_RT), 0, 0, 0 },
+    { "C09X", 1, G_SRC | G_SUB | G_LIFE | G_ILLEGAL | G_BADPARAM | G_SUBDUP,                  RL_BASE | R_SR,                     0, "01000100" "07000100", 1, 0, 1,
+      0, 0, (1u << P_T) | (1u << P_U) | (1u << P_RT), 0, 0x7f, 1 | 0x100 },
     { "C03", 2, G_SRC | G_READY | G_ENV | G_MSG | G_LIFE | G_QUIT | G_ARM | G_EPOLLFAULT | G_SUB, RL_BASE | R_PS | R_SR | R_LP | R_EV,  1, "01000100" "07000100" "07010100" "04000000", 1, 0, 1,
       (1u << A_ERRNO) | (1u << A_STOP) | (1u << A_PAUSE) | (1u << A_QUIT), (1u << CB_EVT), (1u << P_T), (1u << T_T), (1u << K_FD) | (1u << K_TMR), 1 | 4 },
     { "C03E", 2, G_SRC | G_ENVX | G_LIFE | G_QUIT | G_MSG,                                     RL_BASE | R_PS | R_SR | R_LP | R_EV, 0, "01000100" "07000100" "07010100" "04000000", 1, 0, 1,
@@ -41,8 +45,8 @@ static const profile_t PROFILES[] = {
       0, 0, (1u << P_T), (1u << T_T), (1u << K_TMR), 1 },
     { "C15N", 2, G_LIFE | G_ARM | G_QUIT,                                                    RL_BASE | R_NM,                     2, "01000100" "07000103" "07010100", 1, 0, 1,
       (1u << A_CTXCALL) | (1u << A_START) | (1u << A_STOP) | (1u << A_DEREG), 0xf, 0, 0 },
-    { "C20", 2, G_SRC | G_READY | G_ENV | G_LIFE | G_PILL | G_ARM | G_REFS | G_REG,          RL_BASE | R_SR | R_FD,              1, "01000100" "07000100" "07010100" "04000000", 1, 1, 1,
-      (1u << A_DEREG) | (1u << A_RETAIN) | (1u << A_STOP), (1u << CB_EVT) | (1u << CB_START), 0, 0, (1u << K_FD) | (1u << K_TMR), 0x3f, 2 },
+    { "C20", 2, G_SRC | G_READY | G_ENV | G_LIFE | G_PILL | G_ARM | G_REFS | G_REG | G_REREG,         RL_BASE | R_SR | R_FD,              1, "01000100" "07000100" "07010100" "04000000", 1, 1, 1,
+      (1u << A_DEREG) | (1u << A_RETAIN) | (1u << A_STOP), (1u << CB_EVT) | (1u << CB_START), 0, 0, (1u << K_FD) | (1u << K_TMR), 0x3f | 0x100 | 0x400, 2 },
     { "C04", 2, G_LIFE | G_REG | G_MSG | G_SUB | G_BCAST | G_AUTOFREE | G_PILL | G_ARM | G_QUIT | G_STASH | G_BECOME | G_SRC | G_READY | G_ENV | G_REFS | G_FAULT | G_BATCH,
       RL_BASE | R_PS | R_FREE | R_SH | R_HD | R_SR | R_PILL | R_EV, 2, "01000100" "07000100" "07010100" "04000000", 1, 1, 1,
       (1u << A_STOP) | (1u << A_DEREG) | (1u << A_PAUSE) | (1u << A_UNSUB) | (1u << A_TELL) | (1u << A_PUB) | (1u << A_STASH) | (1u << A_UNSTASH) | (1u << A_RETAIN) | (1u << A_QUIT),
